@@ -2,6 +2,7 @@ import HcipyVerif.Model.Jones
 import Mathlib.Data.Complex.Basic
 import Mathlib.Tactic.Ring
 import Mathlib.Tactic.Linarith
+import Mathlib.Tactic.LinearCombination
 import Mathlib.Analysis.Real.Sqrt
 
 /-!
@@ -172,3 +173,41 @@ theorem unit_circle (c s : ℝ) (h : c ^ 2 + s ^ 2 = 1) :
   rw [hinv]; apply Complex.ext <;> simp
 
 end HcipyVerif.Jones
+
+/-! ### Pure mathematics used by `Properties/C08.lean` (moved here in round 5: helpers, not property theorems) -/
+namespace HcipyVerif.C08
+
+/-- `Jᴴ J = 1` for `J = [[x, y], [z, w]]` as four real polynomial equations (decidable over `ℚ`). -/
+def IsUnitary8 (xr xi yr yi zr zi wr wi : ℝ) : Prop :=
+  xr * xr + xi * xi + zr * zr + zi * zi = 1 ∧ yr * yr + yi * yi + wr * wr + wi * wi = 1 ∧
+  xr * yr + xi * yi + zr * wr + zi * wi = 0 ∧ xr * yi - xi * yr + zr * wi - zi * wr = 0
+
+/-- A unitary 2×2 matrix conserves the intensity `|E₁|² + |E₂|²` of every Jones vector
+(as the complex identity `conj o₁·o₁ + conj o₂·o₂ = conj e₁·e₁ + conj e₂·e₂`). -/
+theorem unitary_conserves_intensity (j11 j12 j21 j22 e1 e2 : ℂ)
+    (h11 : (starRingEnd ℂ) j11 * j11 + (starRingEnd ℂ) j21 * j21 = 1)
+    (h12 : (starRingEnd ℂ) j11 * j12 + (starRingEnd ℂ) j21 * j22 = 0)
+    (h21 : (starRingEnd ℂ) j12 * j11 + (starRingEnd ℂ) j22 * j21 = 0)
+    (h22 : (starRingEnd ℂ) j12 * j12 + (starRingEnd ℂ) j22 * j22 = 1) :
+    (starRingEnd ℂ) (j11 * e1 + j12 * e2) * (j11 * e1 + j12 * e2)
+      + (starRingEnd ℂ) (j21 * e1 + j22 * e2) * (j21 * e1 + j22 * e2)
+      = (starRingEnd ℂ) e1 * e1 + (starRingEnd ℂ) e2 * e2 := by
+  simp only [map_add, map_mul]
+  linear_combination ((starRingEnd ℂ) e1 * e1) * h11 + ((starRingEnd ℂ) e1 * e2) * h12
+    + ((starRingEnd ℂ) e2 * e1) * h21 + ((starRingEnd ℂ) e2 * e2) * h22
+
+/-- The complex form of `Jᴴ J = 1` (as proved for the generated retarder matrix) gives the real form. -/
+theorem unitary8_of_complex (j11 j12 j21 j22 : ℂ)
+    (h11 : (starRingEnd ℂ) j11 * j11 + (starRingEnd ℂ) j21 * j21 = 1)
+    (h12 : (starRingEnd ℂ) j11 * j12 + (starRingEnd ℂ) j21 * j22 = 0)
+    (h22 : (starRingEnd ℂ) j12 * j12 + (starRingEnd ℂ) j22 * j22 = 1) :
+    IsUnitary8 j11.re j11.im j12.re j12.im j21.re j21.im j22.re j22.im := by
+  have a := congrArg Complex.re h11
+  have b := congrArg Complex.re h22
+  have c := congrArg Complex.re h12
+  have d := congrArg Complex.im h12
+  simp only [Complex.add_re, Complex.mul_re, Complex.conj_re, Complex.conj_im, Complex.one_re, Complex.zero_re,
+    Complex.add_im, Complex.mul_im, Complex.zero_im] at a b c d
+  refine ⟨by linarith, by linarith, by linarith, by linarith⟩
+
+end HcipyVerif.C08
